@@ -145,7 +145,9 @@ func clientCanary(raw *rawpeer.Server, n int) error {
 		}
 		id := uint64(100000 + n)
 		sess.Emit("/", &id, "canary", json.Number(fmt.Sprint(n)))
-		_, _, err := sess.WaitPacket(0, 3*time.Second, func(p *refcodec.Packet) bool { return p.Type == refcodec.Ack && p.ID != nil && *p.ID == id })
+		// a round trip on loopback takes milliseconds; a short wait per try (and many tries within the 30 s
+		// budget) keeps a try on a session the client has just abandoned from costing seconds
+		_, _, err := sess.WaitPacket(0, 400*time.Millisecond, func(p *refcodec.Packet) bool { return p.Type == refcodec.Ack && p.ID != nil && *p.ID == id })
 		if err == nil {
 			return nil
 		}
